@@ -320,6 +320,43 @@ func c07External(c *run.Ctx, t c07Case, ref []c07Event, refTrunc bool) (fail *ru
 	if t.Opt == "badvars" || t.Opt == "badvars2" {
 		return nil
 	}
+	// the same with the standard library's contexts cancelled WITH A CAUSE (directly, through a child, by a deadline
+	// with a cause): Next returns the context's error (ctx.Err()), which is what callers compare with
+	for j := 0; j <= min(len(ref), 3); j++ {
+		for variant := 0; variant < 3; variant++ {
+			parent, cancel := context.WithCancelCause(context.Background())
+			var ctx context.Context = parent
+			var stop context.CancelFunc = func() {}
+			switch variant {
+			case 1:
+				ctx, stop = context.WithCancel(parent)
+			case 2:
+				ctx, stop = context.WithTimeoutCause(parent, time.Hour, errors.New("c07: deadline cause"))
+			}
+			iter, err := c07Start(t, ctx)
+			if err != nil {
+				cancel(nil)
+				stop()
+				return nil
+			}
+			ok := true
+			for i := 0; i < j && ok; i++ {
+				_, ok = iter.Next()
+			}
+			cancel(errors.New("c07: the client went away"))
+			if ok {
+				v, ok2 := iter.Next()
+				if _, isEnv := gojq.VerifFootprint(iter); isEnv && ok2 {
+					if e, isErr := v.(error); !isErr || e != ctx.Err() {
+						stop()
+						return run.Failf("%q: context cancelled with a cause after %d events (variant %d): Next returned %v; the context's error is %v", t.Src, j, variant, v, ctx.Err())
+					}
+					c.Count("cancellations_with_a_cause", 1)
+				}
+			}
+			stop()
+		}
+	}
 	for j := 0; j <= min(len(ref), 12); j++ {
 		ctx := &flagCtx{}
 		iter, err := c07Start(t, ctx)
